@@ -1371,6 +1371,9 @@ def run_callee(chk, F, collectors, rid="R-CALLEE"):
 # namesake added later therefore hides the earlier declaration in the same frame - `void f(const int k, int k) { k = 1; }`
 # wrote to "the" parameter k although the first k is constant (found by a defect-hunt sub-agent, E12-3).
 DUPNAME_LISTED = {
+    "UTAP::DocumentBuilder::instance_name": "an LSC instance line: a second line of the same name in a chart gets a symbol of "
+                                            "its own (INSTANCE_LINE symbols are no l-values, no constness is at stake); the "
+                                            "tests in this function are about the template the line names, not about duplicates",
     "UTAP::DocumentBuilder::addSelectSymbolToFrame": "a second select binder of the same name on one edge is only warned "
                                                      "about ($shadows_a_variable); both binders are forced constant "
                                                      "(binder-const), so no write gets through",
@@ -1398,20 +1401,22 @@ def run_dupname(chk, F, rid="R-DUPNAME"):
     if len(sites) < 15:
         raise AnalysisBroken("R-DUPNAME: only %d add_symbol sites found" % len(sites))
 
-    def dup_locals(fn):
-        """locals holding the answer of a duplicate test: `bool duplicate = frame.contains(name);`"""
+    def dup_locals(fn, via=None):
+        """locals holding the answer of a duplicate test: `bool duplicate = frame.contains(name);`, or of a callee that
+        hands its own answer back: `const bool fresh = declare(frame, name, ..);`"""
         out = set()
         for d in walk(fn["body"]):
             if d.get("k") == "decl":
                 for v in d.get("vars", []):
-                    if v.get("init") is not None and any(c.get("name") in DUP_TESTS for c in calls(v["init"])):
+                    if v.get("init") is not None and any(c.get("name") in DUP_TESTS or (via is not None and c.get("name") == via)
+                                                         for c in calls(v["init"])):
                         out.add(v.get("id"))
         return out
 
     def own_test(fn, via=None):
         """a duplicate test whose positive outcome reports an error or throws; `via`: a callee that hands the answer of
         its own test back as its result"""
-        dl = dup_locals(fn)
+        dl = dup_locals(fn, via)
         for n in walk(fn["body"]):
             if n.get("k") != "if":
                 continue
@@ -1502,11 +1507,21 @@ def run_fieldgate(chk, F, rid="R-FIELDGATE"):
     ok, seen = False, []
     descends = any(c.get("name") in ("get_sub", "get_array_element", "strip_array_keep_prefix") for c in calls(fn["body"])) and \
         any(n.get("k") in ("while", "for") for n in walk(fn["body"]))
+    blocals = {}
+    for d in walk(fn["body"]):
+        if d.get("k") == "decl":
+            for v in d.get("vars", []):
+                if v.get("init") is not None and "bool" in (v.get("t") or ""):
+                    blocals[v.get("id")] = v["init"]
     for g in gates:
         c = _strip(g["c"])
         neg = False
         while isinstance(c, dict) and c.get("k") == "un" and c.get("op") == "!":
             c, neg = _strip(c["e"]), not neg
+        if isinstance(c, dict) and c.get("k") == "ref" and c.get("id") in blocals:       # `const bool m = type.is_mutable();`
+            c = _strip(blocals[c["id"]])
+            while isinstance(c, dict) and c.get("k") == "un" and c.get("op") == "!":
+                c, neg = _strip(c["e"]), not neg
         if not (isinstance(c, dict) and c.get("k") == "call"):
             continue
         seen.append(short(g["c"])[:40])
